@@ -198,69 +198,140 @@ def correspondence(ctx):
     return {"broken": broken, "violations": violations}
 
 
-def _read_file_dispatch(ctx):
+class _Stubs:
+    """replace every registered extractor function by a stub recording its registry identity"""
+
+    def __init__(self):
+        self.called = []
+        self.saved = []
+
+    def __enter__(self):
+        from sharepoint2text.parsing import router
+        for ft, (modname, fn) in router._EXTRACTOR_REGISTRY.items():
+            mod = importlib.import_module(modname)
+            orig = getattr(mod, fn)
+            if any(m is mod and n == fn for m, n, _ in self.saved):
+                continue
+            self.saved.append((mod, fn, orig))
+
+            def mk(tag):
+                def stub(file_like, path=None):
+                    self.called.append(tag)
+                    return iter(())
+                stub._s2t_tag = tag
+                return stub
+            setattr(mod, fn, mk(f"{modname}:{fn}"))
+        return self
+
+    def __exit__(self, *a):
+        for mod, fn, orig in self.saved:
+            setattr(mod, fn, orig)
+        return False
+
+
+def _read_file_names(ctx):
+    """(given name, symlink target name or None): plain files, and links whose target has another / no extension"""
+    known, mt, other = _extensions()
+    names = []
+    for e in known + ctx.rng.sample(mt, min(len(mt), ctx.n(20, 200))) + other:
+        for v in _case_variants(ctx.rng, e)[: ctx.n(2, 4)]:
+            for s in ("f", "a.b", "x.tar", ".h", "my file"):
+                names.append((s + "." + v, None))
+    names += [(n, None) for n in ("noext", ".docx", "..pdf", "x.")]
+    exts = ctx.rng.sample(known, min(len(known), ctx.n(8, 30))) + ["bin", "zzz"]
+    for i, a in enumerate(exts):
+        for b in (ctx.rng.choice(known), "zzz", None):
+            if a == b:
+                continue
+            names.append((f"link{i}.{a}", "objects/%04x" % i if b is None else f"objects/t{i}.{b}"))
+            names.append((f"plain{i}", f"objects/u{i}.{a}"))          # extension-less link to a supported file
+    return names
+
+
+def _read_file_one(stubs, td, nm, target):
+    """-> (path string handed to read_file, what read_file did, what get_extractor(path) says) with stubs installed"""
     import sharepoint2text
     from sharepoint2text.parsing import router
     from sharepoint2text.parsing.exceptions import ExtractionFileFormatNotSupportedError
-    broken = []
-    called = []
-    saved = []
-    for ft, (modname, fn) in router._EXTRACTOR_REGISTRY.items():
-        mod = importlib.import_module(modname)
-        orig = getattr(mod, fn)
-        if any(m is mod and n == fn for m, n, _ in saved):
-            continue
-        saved.append((mod, fn, orig))
-
-        def mk(tag):
-            def stub(file_like, path=None):
-                called.append(tag)
-                return iter(())
-            return stub
-        setattr(mod, fn, mk(f"{modname}:{fn}"))
+    fp = os.path.join(td, nm)
     try:
-        known, mt, other = _extensions()
-        names = []
-        for e in known + ctx.rng.sample(mt, min(len(mt), ctx.n(20, 200))) + other:
-            for v in _case_variants(ctx.rng, e)[: ctx.n(2, 4)]:
-                for s in ("f", "a.b", "x.tar", ".h", "my file"):
-                    names.append(s + "." + v)
-        names += ["noext", ".docx", "..pdf", "x."]
+        if target is None:
+            with open(fp, "wb") as fh:
+                fh.write(b"x")
+        else:
+            tp = os.path.join(td, target)
+            os.makedirs(os.path.dirname(tp), exist_ok=True)
+            with open(tp, "wb") as fh:
+                fh.write(b"x")
+            if os.path.lexists(fp):
+                os.unlink(fp)
+            os.symlink(tp, fp)
+    except OSError:
+        return None
+    stubs.called.clear()
+    try:
+        list(sharepoint2text.read_file(fp))
+        got = stubs.called[0] if stubs.called else "NO-EXTRACTOR-CALLED"
+    except ExtractionFileFormatNotSupportedError:
+        got = "ERR:formatNotSupported"
+    except Exception as e:
+        got = f"ERR:{type(e).__name__}"
+    try:
+        want = getattr(router.get_extractor(fp), "_s2t_tag", "NOT-A-REGISTERED-EXTRACTOR")
+    except ExtractionFileFormatNotSupportedError:
+        want = "ERR:formatNotSupported"
+    except Exception as e:
+        want = f"ERR:{type(e).__name__}"
+    return fp, got, want
+
+
+def _read_file_dispatch(ctx):
+    broken = []
+    with _Stubs() as stubs:
         with tempfile.TemporaryDirectory(prefix="s2t_c07_") as td:
             reqs, exp = [], []
-            for nm in names:
+            for nm, target in _read_file_names(ctx):
                 if "/" in nm or "\x00" in nm or len(nm.encode("utf-8", "ignore")) > 200:
                     continue
-                fp = os.path.join(td, nm)
-                try:
-                    with open(fp, "wb") as fh:
-                        fh.write(b"x")
-                except OSError:
+                r = _read_file_one(stubs, td, nm, target)
+                if r is None:
                     continue
-                called.clear()
-                try:
-                    list(sharepoint2text.read_file(fp))
-                    got = called[0] if called else "NO-EXTRACTOR-CALLED"
-                except ExtractionFileFormatNotSupportedError:
-                    got = "ERR:formatNotSupported"
-                except Exception as e:
-                    got = f"ERR:{type(e).__name__}"
+                fp, got, _ = r
                 pl = fp.lower()
                 reqs.append({"op": "c07.route", "pl": pl, "mime": mimetypes.guess_type(pl)[0]})
-                exp.append((nm, got))
+                exp.append((nm, target, got))
             outs = ctx.drive(reqs)
             bad = 0
-            for (nm, got), o in zip(exp, outs):
-                ctx.case(("read_file", nm))
-                ctx.count("read_file/" + ("routed" if not got.startswith("ERR") else "unsupported"))
+            for (nm, target, got), o in zip(exp, outs):
+                ctx.case(("read_file", nm, target))
+                ctx.count("read_file/" + ("link/" if target else "file/") + ("routed" if not got.startswith("ERR") else "unsupported"))
                 if o.get("ext") != got:
                     bad += 1
                     if bad <= 10:
-                        broken.append(Broken("correspondence", "c07.read_file", f"impl={got} model={o.get('ext')}", case={"name": nm}))
-    finally:
-        for mod, fn, orig in saved:
-            setattr(mod, fn, orig)
+                        broken.append(Broken("correspondence", "c07.read_file", f"impl={got} model={o.get('ext')}",
+                                             case={"name": nm, "target": target}))
     return broken
+
+
+def _read_file_oracle(ctx, cases):
+    """the property's last clause on the real code, independent of the Lean model: read_file(path) hands the file to
+    the extractor get_extractor(path) returns (and raises format-not-supported exactly when get_extractor does)"""
+    out = []
+    with _Stubs() as stubs:
+        with tempfile.TemporaryDirectory(prefix="s2t_c07_") as td:
+            for nm, target in cases:
+                if "/" in nm or "\x00" in nm:
+                    continue
+                r = _read_file_one(stubs, td, nm, target)
+                if r is None:
+                    continue
+                fp, got, want = r
+                if got != want:
+                    how = f"a symlink to {target!r}" if target else "a regular file"
+                    out.append(Violation("read_file-dispatch", f"read_file({nm!r}) ({how}) -> {got}, get_extractor({nm!r}) -> {want}",
+                                         {"name": nm, "target": target}))
+                    return out
+    return out
 
 
 # ----------------------------------------------------------------------------- oracle / search
@@ -306,6 +377,11 @@ def _oracle_violations(ctx, paths):
 
 
 def search(ctx, broken):
+    rf = [(b.case["name"], b.case.get("target")) for b in broken if b.case and "name" in b.case]
+    if rf or any(b.name == "c07.read_file" for b in broken):
+        vs = _read_file_oracle(ctx, rf + _read_file_names(ctx))
+        if vs:
+            return vs
     seeds = [b.case["path"] for b in broken if b.case and "path" in b.case]
     if seeds:  # small set first: history-dependent defects (memoisation) only show on a few paths revisited
         vs = _oracle_violations(ctx, seeds[:40])
@@ -321,6 +397,9 @@ def search(ctx, broken):
 
 def replay(ctx, payload):
     rep = payload.get("replay", {})
+    if "name" in rep:
+        vs = _read_file_oracle(ctx, [(rep["name"], rep.get("target"))])
+        return (not vs), "; ".join(v.what for v in vs) or "read_file dispatches like get_extractor on the recorded name"
     if "path" not in rep:
         return False, "replay names a broken obligation, not an input: " + payload.get("what", "")
     vs = _oracle_violations(ctx, [rep["path"]])
